@@ -45,7 +45,7 @@ ASSUMPTIONS = ['exactly one stop action with a code per cycle', 'a foreign-threa
 PROBES = ['stop:started', 'stop:chain', 'stop:genstep', 'stop:timer', 'stop:idle-ctrl-c', 'form:stop()', 'form:stop(code)', 'form:SystemExit',
           'form:KeyboardInterrupt', 'cycle>1', 'stop-when-not-running', 'queued-at-stop', 'task-at-stop', 'threaded', 'stopped-handler-fires']
 TIERS = {
-    'quick': dict(runs=14000, wall=35, chunk=100, cfg=dict(max_events=30, threaded_share=3)),
+    'quick': dict(runs=32000, wall=35, chunk=100, cfg=dict(max_events=30, threaded_share=3)),
     'thorough': dict(runs=400000, wall=600, chunk=200, cfg=dict(max_events=80, threaded_share=3)),
 }
 
